@@ -60,6 +60,7 @@ type NameBinding struct {
 // CallLog is the ghost sequence of invocations of one callback: a length and,
 // per argument leaf, an array from call index to the value passed.
 type CallLog struct {
+	Succ Term // how many of the logged calls returned true (calls with a boolean first result); "" when not tracked
 	Len  Term
 	Args [][]Term // [arg][leaf] -> (Array Int sort)
 	ArgT []types.Type
